@@ -1,6 +1,8 @@
 package checks
 
 import (
+	"errors"
+	"context"
 	"github.com/transparency-dev/witness/verifmc/ref6962"
 	"strconv"
 	"bytes"
@@ -14,6 +16,7 @@ import (
 	"strings"
 	"sync"
 	"syscall"
+	"time"
 
 	"github.com/transparency-dev/witness/verifmc/drvwrap"
 	"github.com/transparency-dev/witness/verifmc/ev"
@@ -77,15 +80,38 @@ func c06RunWorker(args []string) int {
 	wh.InstallLogicalClock()
 	u, gen, la, lb := c06Universe()
 	steps := c06History(hist, u, gen, la, lb)
+	var probeEnv *wh.Env
 	env := wh.NewEnv(u, wh.Config{Store: "file:" + db, Logs: []wh.LogCfg{la, lb}, DrvSetup: func(d *drvwrap.Driver) {
 		d.SetHook(func(op string, k int, ph string) drvwrap.Action {
 			if k == killAt && ph == phase {
+				// What a reader is served at this very instant (it normally
+				// waits for the connection the update holds; 300 ms later the
+				// process dies either way).
+				served := make(chan string, 2)
+				for _, l := range []wh.LogCfg{la, lb} {
+					go func(l wh.LogCfg) {
+						if b, err := probeEnv.W.GetCheckpoint(l.ID()); err == nil {
+							served <- fmt.Sprintf("SERVED %s %s", l.ID(), base64.StdEncoding.EncodeToString(b))
+						}
+					}(l)
+				}
+				deadline := time.After(300 * time.Millisecond)
+			wait:
+				for i := 0; i < 2; i++ {
+					select {
+					case s := <-served:
+						_, _ = os.Stdout.Write([]byte(s + "\n"))
+					case <-deadline:
+						break wait
+					}
+				}
 				_ = syscall.Kill(os.Getpid(), syscall.SIGKILL)
 				select {}
 			}
 			return drvwrap.Action{}
 		})
 	}})
+	probeEnv = env
 	emit := func(s string) { _, _ = os.Stdout.Write([]byte(s + "\n")) }
 	var marks []string
 	for i, st := range steps {
@@ -183,6 +209,7 @@ type c06Point struct {
 // result.
 func c06Judge(run *ev.Run, u *uni.U, gen *wh.CPGen, la, lb wh.LogCfg, steps []c06Step, pt c06Point, out []byte, v c06Verify, trace string) {
 	acked := map[string][]byte{} // logID -> last acknowledged bytes
+	servedAtKill := map[string][]byte{}
 	inflight := -1
 	for _, line := range strings.Split(strings.TrimSpace(string(out)), "\n") {
 		f := strings.Fields(line)
@@ -200,6 +227,11 @@ func c06Judge(run *ev.Run, u *uni.U, gen *wh.CPGen, la, lb wh.LogCfg, steps []c0
 			inflight = -1
 		case "NACK":
 			inflight = -1
+		case "SERVED":
+			if len(f) >= 3 {
+				b, _ := base64.StdEncoding.DecodeString(f[2])
+				servedAtKill[f[1]] = b
+			}
 		}
 	}
 	where := "between updates"
@@ -227,6 +259,23 @@ func c06Judge(run *ev.Run, u *uni.U, gen *wh.CPGen, la, lb wh.LogCfg, steps []c0
 		}
 		return "in-flight-" + steps[inflight].Expect
 	}())
+	// What a reader was served at the instant of the kill is in force after the
+	// restart (or superseded by a larger checkpoint): a checkpoint that was
+	// handed out and is gone lets the restarted witness cosign another one of
+	// that size.
+	for _, l := range []wh.LogCfg{la, lb} {
+		sv, ok := servedAtKill[l.ID()]
+		if !ok {
+			continue
+		}
+		run.Add("reads_served_at_the_kill", 1)
+		stored, _ := base64.StdEncoding.DecodeString(v.Stored[l.ID()])
+		a, oka := wh.StateOf(gen, sv)
+		b, okb := wh.StateOf(gen, c06Bytes(string(stored)))
+		if oka && a.Has && (!okb || !b.Has || b.Size < a.Size || (b.Size == a.Size && string(b.Root) != string(a.Root))) {
+			run.Report(sig("served-before-the-kill-but-not-durable"), desc(fmt.Sprintf("a reader of %s was served a cosigned checkpoint of size %d at the instant of the kill; after the restart the store holds size %d / nothing: what the witness handed out is gone", l.Origin, a.Size, b.Size)), rep)
+		}
+	}
 	for _, l := range []wh.LogCfg{la, lb} {
 		id := l.ID()
 		stored, _ := base64.StdEncoding.DecodeString(v.Stored[id])
@@ -343,7 +392,13 @@ func c06(tier string) int {
 		steps := c06History(hn, u, gen, la, lb)
 		// Reference run (no kill): number of driver operations.
 		ref := filepath.Join(scratch, "ref-"+hn+".db")
-		out, err := exec.Command(self, "worker", "c06run", ref, hn, "-1", "pre").Output()
+		out, err := c06Worker(self, "c06run", ref, hn, "-1", "pre")
+		if err == errC06WorkerStuck {
+			// Neither a pass nor a violation: the scripted, fault-free history
+			// does not even finish on this tree (a store that keeps the pool's
+			// only connection to itself also starves the harness's own reads).
+			ev.Internal("C06: the crash-free reference run of %s did not finish within %s", hn, c06WorkerLimit)
+		}
 		if err != nil {
 			ev.Internal("C06 reference run failed: %v", err)
 		}
@@ -385,7 +440,7 @@ func c06(tier string) int {
 				defer func() { <-sem }()
 				db := filepath.Join(scratch, fmt.Sprintf("c06-%s-%d-%s.db", pt.Hist, pt.K, pt.Phase))
 				defer func() { os.Remove(db); os.Remove(db + "-journal"); os.Remove(db + "-wal"); os.Remove(db + "-shm") }()
-				o, _ := exec.Command(self, "worker", "c06run", db, pt.Hist, fmt.Sprint(pt.K), pt.Phase).Output()
+				o, _ := c06Worker(self, "c06run", db, pt.Hist, fmt.Sprint(pt.K), pt.Phase)
 				if strings.Contains(string(o), "OPS ") {
 					// post-phase of an operation that reports failure is never
 					// reached (e.g. next -> EOF counts as success, fine) —
@@ -394,7 +449,7 @@ func c06(tier string) int {
 					run.Add("points_not_reached", 1)
 					mu.Unlock()
 				}
-				vo, err := exec.Command(self, "worker", "c06verify", db).Output()
+				vo, err := c06Worker(self, "c06verify", db)
 				var v c06Verify
 				if err != nil || json.Unmarshal(lastLine(vo), &v) != nil {
 					v.Err = fmt.Sprintf("verify process failed: %v: %s", err, tail(vo))
@@ -453,8 +508,8 @@ func c06Replay(m map[string]any) int {
 	steps := c06History(hn, u, gen, la, lb)
 	db := filepath.Join(scratch, "replay.db")
 	defer os.Remove(db)
-	o, _ := exec.Command(self, "worker", "c06run", db, hn, fmt.Sprint(k), ph).Output()
-	vo, _ := exec.Command(self, "worker", "c06verify", db).Output()
+	o, _ := c06Worker(self, "c06run", db, hn, fmt.Sprint(k), ph)
+	vo, _ := c06Worker(self, "c06verify", db)
 	fmt.Printf("worker output before kill:\n%s\nstate after restart:\n%s\n", o, vo)
 	var v c06Verify
 	_ = json.Unmarshal(lastLine(vo), &v)
@@ -538,4 +593,19 @@ func uniSize(cp string) (uint64, bool) {
 	}
 	v, err := strconv.ParseUint(l[1], 10, 64)
 	return v, err == nil
+}
+
+const c06WorkerLimit = 3 * time.Minute
+
+var errC06WorkerStuck = errors.New("verif: worker did not finish")
+
+// c06Worker runs one worker process (they take milliseconds) under a limit.
+func c06Worker(self string, args ...string) ([]byte, error) {
+	ctx, cancel := context.WithTimeout(context.Background(), c06WorkerLimit)
+	defer cancel()
+	out, err := exec.CommandContext(ctx, self, append([]string{"worker"}, args...)...).Output()
+	if ctx.Err() != nil {
+		return out, errC06WorkerStuck
+	}
+	return out, err
 }
